@@ -180,7 +180,7 @@ func genC09(rng *rand.Rand, n int, emit func(Case), dist map[string]int) {
 	e := echo.New()
 	shapes := []func() interface{}{func() interface{} { return &c09A{} }, func() interface{} { return &c09B{} }, func() interface{} { return &c09C{} }}
 	keyPool := []string{"id", "ID", "Id", "name", "Name", "NAME", "admin", "Admin", "role", "Role", "secret", "tags", "Tags", "city", "City", "zip", "Zip", "plain", "Plain",
-		"token", "X-Token", "level", "Level", "owner", "Owner", "nums", "hidden", "Hidden", "q", "Q", "mixed", "Mixed", "count", "Count", "other", "Addr", "addr.city", "c09Embedded", "Token", "", "", " "}
+		"token", "X-Token", "level", "Level", "owner", "Owner", "nums", "hidden", "Hidden", "q", "Q", "mixed", "Mixed", "count", "Count", "other", "Addr", "addr.city", "c09Embedded", "Token", "", "", " ", "id[]", "Id[]", "name[]", "tags[]", "nums[]", "X-Token[]", "q[]"}
 	vals := func(key string, k int) []string {
 		var out []string
 		for i := 0; i < k; i++ {
